@@ -8,6 +8,9 @@
 \*            gen:opf       Serial, p1 (c1, command handlers) and p2 (c2, repository), 2 calls each, 1 lookup; CreateFaults +
 \*                          DelFaults: any ONE storage operation of a create (pre-check, id counter, index SetNX as an ERROR,
 \*                          record, list, expiry update) or of a delete fails; then the retry, the re-claim, the lookups
+\*            gen:retry     Serial, p1 (c1, repository) creates / deletes twice, p2 (c2) claims in between, no lookup process;
+\*                          any ONE storage operation of a create / delete fails: the RETRY of a failed call after the other
+\*                          client's operations (all behaviours are driven)
 \*            gen:list      p1 = the owner lists, p3 = the owner deletes, p2 = another client claims, 1 lookup process
 \*            gen:upd       p1 = the owner updates (inactive / expired) or deletes, p3 = the owner deletes, p2 claims
 \*            gen:rdf       Serial, Create/Delete/List/Update, 2 calls each, 1 lookup; ReadFaults: any ONE storage operation
@@ -19,7 +22,7 @@
 \*   thorough + gen:conc2f, gen:conc3f (1 failing write), gen:conc2:2names (n1, n2), gen:seqleg (2 legacy mappings, 3 lookups),
 \*            gen:seqf (Serial + failing write), gen:spell (all six Host / subdomain spellings), gen:listf (gen:list + ReadFaults)
 \*            legacy:conc3, legacy:seq, legacy:conc2f   Fix = FALSE, CaseFold = FALSE (the code before the two repairs), no invariants
-\*            legacy:dev:lazy-clean / nx-release / fall-through / list-heals / update-heals   schedules of code that has the
+\*            legacy:dev:lazy-clean / nx-release / fall-through / list-heals / update-heals / unguarded-delete   schedules of code that has the
 \*                          named deviations (on the present code they diverge and are judged as far as they go)
 \*            mc:guess (Guess = TRUE), mc:conc3x2 (2 calls/process, no lookup process), mc:conc2:2names (+ failing
 \*            write), mc:seq:3ops, mc:spell:3ops
